@@ -138,7 +138,7 @@ func genSchemaFamily(c *Ctx, filter func(string) bool) {
 	if c.Tier == "thorough" {
 		n, depth = 120, 2
 	}
-	if c.Prop == "C08" && c.Tier != "thorough" {
+	if (c.Prop == "C08" || c.Prop == "C18") && c.Tier != "thorough" {
 		n = 12 // the document space per type is the expensive dimension here
 	}
 	for i := 0; i < n; i++ {
